@@ -8,6 +8,7 @@ import (
 	"fmt"
 	"os"
 	"path/filepath"
+	"strconv"
 	"strings"
 
 	"github.com/goccy/go-yaml"
@@ -187,6 +188,41 @@ func c02Gen(c *vfCtx, emit func(c02Case)) {
 	for _, color := range []bool{false, true} {
 		pairs("snap", ctl, color, "unset")
 		pairs("ssnap", ctl, color, "unset")
+	}
+	// a text holding an invisible or non-printable character against the same text with that character SPELLED OUT the way tools
+	// print it (Go / JSON escapes, caret notation, percent and entity encodings): different bytes, so different snapshots
+	for _, raw := range []string{"jane\u200bdoe", "level=\x1b[31merror", "key\x00value", "10\u00a0km", "id: \xff\xfe", "bell\a", "a\tb", "del\x7f", "line\u2028sep"} {
+		q, qa := strconv.Quote(raw), strconv.QuoteToASCII(raw)
+		spelled := []string{raw, q[1 : len(q)-1], qa[1 : len(qa)-1], strings.ToUpper(qa[1 : len(qa)-1])}
+		var caret, pct, ent strings.Builder
+		for _, b := range []byte(raw) {
+			switch {
+			case b < 0x20 || b == 0x7f:
+				caret.WriteString("^" + string(rune(b^0x40)))
+				fmt.Fprintf(&pct, "%%%02X", b)
+				fmt.Fprintf(&ent, "&#%d;", b)
+			default:
+				caret.WriteByte(b)
+				pct.WriteByte(b)
+				ent.WriteByte(b)
+			}
+		}
+		spelled = append(spelled, caret.String(), pct.String(), ent.String())
+		var set []string
+		seen := map[string]bool{}
+		for _, x := range spelled {
+			if !seen[x] {
+				seen[x] = true
+				set = append(set, x)
+			}
+		}
+		for ci, color := range []bool{false, true} {
+			pairs("snap", set, color, "unset")
+			if ci == 0 {
+				pairs("ssnap", set, color, "unset")
+				pairs("snap", []string{"head\n" + set[0] + "\ntail", "head\n" + set[1] + "\ntail", "head\n" + set[2] + "\ntail"}, color, "unset")
+			}
+		}
 	}
 }
 
